@@ -7,6 +7,7 @@
 // Rules (see DESIGN.md §3.1):
 //
 //	R1 sync.Mutex/RWMutex/Once/Pool -> verifMutex/verifRWMutex/verifOnce/verifPool
+//	R9 writes to captured variables inside goroutine closures are followed by a yield
 //	R2 go f(a...)                   -> deterministic spawn token + start hook + panic capture
 //	R3 g.Go(func() error {...})     -> g.Go(verifWrapErrFunc(func() error {...}))
 //	R4 scheduling points around channel operations, selects, close, len/cap
@@ -87,6 +88,8 @@ type fileInstr struct {
 	edits    []edit
 	nYield   int
 	nIO      int
+	doneLit  map[*ast.FuncLit]bool
+	doneStmt map[token.Pos]bool
 	sites    []string
 }
 
@@ -199,6 +202,86 @@ func (fi *fileInstr) isChanExpr(e ast.Expr) bool {
 		return fi.chanName[t.Sel.Name]
 	}
 	return false
+}
+
+// sharedWrites is rule R9: inside a function literal that runs as a goroutine (go func / errgroup Go), a statement
+// that assigns to a variable declared outside the literal - memory other goroutines can see - is followed by a
+// scheduling point. Without it two tasks could never interleave between such a write and the next read, and an
+// unsynchronised update of shared state would be invisible to a scheduler that only switches at channel, lock and
+// file-system operations.
+func (fi *fileInstr) sharedWrites(fl *ast.FuncLit) {
+	if fi.doneLit == nil {
+		fi.doneLit = map[*ast.FuncLit]bool{}
+		fi.doneStmt = map[token.Pos]bool{}
+	}
+	if fi.doneLit[fl] {
+		return
+	}
+	fi.doneLit[fl] = true
+	root := func(e ast.Expr) *ast.Ident {
+		for {
+			switch t := e.(type) {
+			case *ast.Ident:
+				return t
+			case *ast.SelectorExpr:
+				e = t.X
+			case *ast.IndexExpr:
+				e = t.X
+			case *ast.StarExpr:
+				e = t.X
+			case *ast.ParenExpr:
+				e = t.X
+			default:
+				return nil
+			}
+		}
+	}
+	captured := func(e ast.Expr) bool {
+		id := root(e)
+		if id == nil || id.Name == "_" || id.Obj == nil || id.Obj.Kind != ast.Var {
+			return false
+		}
+		p := id.Obj.Pos()
+		return p.IsValid() && (p < fl.Pos() || p >= fl.End())
+	}
+	var lists func(n ast.Node)
+	mark := func(list []ast.Stmt) {
+		for _, st := range list {
+			shared := false
+			switch t := st.(type) {
+			case *ast.AssignStmt:
+				if t.Tok != token.DEFINE {
+					for _, l := range t.Lhs {
+						if captured(l) {
+							shared = true
+						}
+					}
+				}
+			case *ast.IncDecStmt:
+				shared = captured(t.X)
+			}
+			if shared && !fi.doneStmt[st.Pos()] {
+				fi.doneStmt[st.Pos()] = true
+				fi.ins(fi.off(st.End()), fmt.Sprintf("; verifYield(%q)", fi.label(st.Pos())+"w"), 0)
+				fi.nYield++
+				fi.sites = append(fi.sites, fi.label(st.Pos())+"w")
+			}
+		}
+	}
+	lists = func(n ast.Node) {
+		ast.Inspect(n, func(x ast.Node) bool {
+			switch t := x.(type) {
+			case *ast.BlockStmt:
+				mark(t.List)
+			case *ast.CaseClause:
+				mark(t.Body)
+			case *ast.CommClause:
+				mark(t.Body)
+			}
+			return true
+		})
+	}
+	lists(fl.Body)
 }
 
 func (fi *fileInstr) ins(pos int, text string, prio int) {
@@ -343,12 +426,17 @@ func (fi *fileInstr) passA() ([]byte, error) {
 					fi.edits = append(fi.edits, edit{fi.off(t.Pos()), fi.off(t.End()), "verif" + t.Sel.Name, 0})
 				}
 			}
+		case *ast.GoStmt:
+			if fl, ok := t.Call.Fun.(*ast.FuncLit); ok {
+				fi.sharedWrites(fl)
+			}
 		case *ast.CallExpr:
 			// errgroup style X.Go(func() error {...})
 			if se, ok := t.Fun.(*ast.SelectorExpr); ok && se.Sel.Name == "Go" && len(t.Args) == 1 {
 				if fl, ok := t.Args[0].(*ast.FuncLit); ok {
 					fi.ins(fi.off(fl.Pos()), "verifWrapErrFunc(", 0)
 					fi.ins(fi.off(fl.End()), ")", 0)
+					fi.sharedWrites(fl)
 				}
 			}
 		case *ast.FuncDecl:
@@ -597,7 +685,7 @@ func Instrument(repo, out, inpkg string) (*Report, error) {
 			return nil, err
 		}
 		fset := token.NewFileSet()
-		f, err := parser.ParseFile(fset, path, src, parser.ParseComments|parser.SkipObjectResolution)
+		f, err := parser.ParseFile(fset, path, src, parser.ParseComments) // with object resolution: R9 needs to know what a closure captures
 		if err != nil {
 			return nil, err
 		}
